@@ -18,6 +18,15 @@ IsCanonOf(c, u) ==
   /\ c.port = u.port                                \* a port exactly when one was given
   /\ NormPath(c.path) = NormPath(u.path)
   /\ ~c.hasuser /\ ~c.haspass /\ ~c.hasq            \* never user-info, never the query
+(* on records of the harness, which also carry the host and the path in normal form (hostn: lower case, IPv6   *)
+(* literal in canonical text; pathn: RFC 3986 6.2.2 - escapes upper-cased, unreserved decoded, dot segments       *)
+(* removed; empty segments kept): "the same host ... the same path" is judged on those                            *)
+IsCanonOfN(c, u) ==
+  /\ c.scheme \in CanonSchemes(u)
+  /\ c.hostn = u.hostn
+  /\ c.port = u.port
+  /\ NormPath(c.pathn) = NormPath(u.pathn)
+  /\ ~c.hasuser /\ ~c.haspass /\ ~c.hasq
 Canon(u) == [scheme |-> "ipp", hasuser |-> FALSE, user |-> "", haspass |-> FALSE, pass |-> "",
              host |-> u.host, port |-> u.port, path |-> NormPath(u.path), hasq |-> FALSE, query |-> ""]
 
@@ -30,4 +39,8 @@ Transport(u, ippsDefault) ==
                                            !.path = NormPath(u.path)]
   ELSE [u EXCEPT !.path = NormPath(u.path)]
 SameUri(a, b) == [a EXCEPT !.path = NormPath(a.path)] = [b EXCEPT !.path = NormPath(b.path)]
+(* on records of the harness: host and path in normal form, everything else literally *)
+SameUriN(a, b) == /\ a.scheme = b.scheme /\ a.hasuser = b.hasuser /\ a.user = b.user /\ a.haspass = b.haspass /\ a.pass = b.pass
+                  /\ a.hostn = b.hostn /\ a.port = b.port /\ NormPath(a.pathn) = NormPath(b.pathn)
+                  /\ a.hasq = b.hasq /\ a.query = b.query
 =============================================================================
